@@ -321,6 +321,7 @@ macro_rules! spatial_types {
 spatial_types!(impl_sp);
 
 mod generic;
+mod ieee;
 mod ints;
 mod scale;
 mod slerp_edge;
